@@ -10,7 +10,8 @@
 From Coq Require Import List NArith Bool Arith.
 From Shovel Require Import Base.Outcome Model.Manager
   Proofs.ManagerLoadP Proofs.ManagerRunP Proofs.ManagerRunP2 Proofs.ManagerRunP3 Proofs.ManagerRunP4
-  Corr.RunC20.
+  Proofs.BridgeManagerTaskP Corr.RunC20.
+From Shovel Require Model.TaskTypes.
 Import ListNotations.
 
 (* ================= (i) which tasks ================= *)
@@ -173,6 +174,53 @@ Theorem legacy_lost_restart_hangs : forall cont,
   exists kv, nth_error (rsts s) 0 = Some {| k_pc := KWaiting 1; k_ver := kv |}.
 Proof. exact legacy_lost_restart_hangs_l. Qed.
 Print Assumptions legacy_lost_restart_hangs.
+
+(* ================= bridge to the task layer (C01..C06) ================= *)
+(* The multi-task theorems of Properties/C04.v ([system_frame],
+   [other_tasks_preserve_inv], [system_invariant]) assume a list of task
+   configurations with NoDup (map pair_of cfgs) and one runner per
+   configuration.  See Proofs/BridgeManagerTaskP.v for how a TaskSys schedule
+   corresponds to the interleaving of the runners of the live generation. *)
+
+(* (1) In the vocabulary of TaskTypes (names read as ids through ANY injective
+   [enc]; the fields loadTasks does not decide supplied by any [rest]): the
+   configurations loadTasks returns have pairwise distinct (t_src, t_ig).
+   [tl_pair] unfolds to TaskSpec.pair_of. *)
+Theorem loaded_tasks_have_distinct_pairs : forall enc rest fs ds fi di ts,
+  injective enc ->
+  load_tasks fs ds fi di = Ok ts ->
+  NoDup (map tl_pair (map (to_tcfg enc rest) ts)).
+Proof. exact loaded_tasks_have_distinct_pairs_l. Qed.
+Print Assumptions loaded_tasks_have_distinct_pairs.
+
+(* ... and carry batch size and concurrency >= 1 (the task layer's cfg_ok) *)
+Theorem loaded_tasks_batch_conc_pos : forall fs ds fi di ts t,
+  load_tasks fs ds fi di = Ok ts -> In t ts -> (1 <= t_batch t /\ 1 <= t_conc t)%N.
+Proof. exact loaded_tasks_batch_conc_pos_l. Qed.
+Print Assumptions loaded_tasks_batch_conc_pos.
+
+(* the runners started from one loadTasks result (the j-th runner drives the
+   j-th task) drive pairwise distinct pairs *)
+Theorem spawned_runners_distinct : forall fs ds fi di ts j1 j2 t1 t2,
+  load_tasks fs ds fi di = Ok ts ->
+  nth_error ts j1 = Some t1 -> nth_error ts j2 = Some t2 -> j1 <> j2 ->
+  pair_of t1 <> pair_of t2.
+Proof. exact spawned_runners_distinct_l. Qed.
+Print Assumptions spawned_runners_distinct.
+
+(* (2) ALL schedules, both variants, any labelling of the runners by the pair
+   they drive in which the runners of ONE generation have distinct labels
+   (discharged by [spawned_runners_distinct]): two distinct live runners never
+   drive the same pair, ACROSS generations -- at most one live runner per
+   (source, integration) pair, always. *)
+Theorem one_runner_per_pair_always : forall {P : Type} (label : nat -> P) v sched,
+  let s := exec v init sched in
+  (forall t1 t2 g1 g2, nth_error (tasks s) t1 = Some g1 -> nth_error (tasks s) t2 = Some g2 ->
+     g_gen g1 = g_gen g2 -> t1 <> t2 -> label t1 <> label t2) ->
+  forall t1 t2 g1 g2, nth_error (tasks s) t1 = Some g1 -> nth_error (tasks s) t2 = Some g2 ->
+    live g1 = true -> live g2 = true -> label t1 = label t2 -> t1 = t2.
+Proof. exact @one_runner_per_pair_always_l. Qed.
+Print Assumptions one_runner_per_pair_always.
 
 (* ================= non-vacuity ================= *)
 
